@@ -72,10 +72,10 @@ def gen_spline(rng, S, tier, allow_per=True, nmax=None):
     shape = [n] + trailing
     L = gen.lanes_of(shape)
     if S == "Q":
-        xs = gen.axis_q(rng, n, rng.choice(["unit", "uniform", "geometric", "random", "dyadic", "mesh64", "mesh64", "evenish", "evenish"]))
+        xs = gen.axis_q(rng, n, rng.choice(["unit", "uniform", "geometric", "random", "dyadic", "mesh64", "mesh64", "evenish", "evenish", "nearly_even", "nearly_even", "indexlike"]))
         flat = gen.vals_q(rng, n * L, rng.choice(["int", "dyadic", "rational"]))
     else:
-        xs = gen.axis_f(rng, n, rng.choice(["unit", "uniform", "random", "geometric", "evenish"]))
+        xs = gen.axis_f(rng, n, rng.choice(["unit", "uniform", "random", "geometric", "evenish", "nearly_even", "indexlike"]))
         flat = [rng.uniform(-4, 4) for _ in range(n * L)]
     flat = gen.degenerate(rng, n, L, flat, 0.12)
     bc, lanes = rand_bc(rng, S, L, trailing, allow_per)
